@@ -151,3 +151,186 @@ telescope_harness!(
     booth_telescope_c1 = 1, booth_telescope_c2 = 2, booth_telescope_c3 = 3, booth_telescope_c4 = 4, booth_telescope_c5 = 5,
     booth_telescope_c7 = 7, booth_telescope_c8 = 8, booth_telescope_c11 = 11, booth_telescope_c13 = 13, booth_telescope_c16 = 16
 );
+
+// =============================================================================================
+// Batch-affine bucket accumulation of msm_best (hook H7): the REAL generic `batch_add` and `Schedule`
+// instantiated at a toy curve (src/toy.rs), against the textbook affine group law, for EVERY point of
+// the toy curve. The code is generic in `C: CurveAffine` and uses only `C::Base` field arithmetic, so
+// genericity is what carries the statement to BLS12-381; the toy field is the bound.
+use crate::toy::{ToyCurve, A13, A31};
+use ff::Field;
+use midnight_curves::msm::verif::{verif_batch_add, VerifSchedule};
+use midnight_curves::CurveAffine;
+
+type Pt<C> = Option<(<C as CurveAffine>::Base, <C as CurveAffine>::Base)>;
+
+/// any non-identity point of the toy curve y^2 = x^3 + b over F_p
+fn any_point<C: ToyCurve>() -> (C::Base, C::Base) {
+    let (x, y): (u8, u8) = (any(), any());
+    assume(x < C::P && y < C::P);
+    let (x, y) = (C::fe(x), C::fe(y));
+    assume(y * y == x * x * x + C::b());
+    (x, y)
+}
+
+fn ref_neg<C: CurveAffine>(p: Pt<C>) -> Pt<C> {
+    match p {
+        None => None,
+        Some((x, y)) => Some((x, -y)),
+    }
+}
+
+/// textbook affine group law (a = 0)
+fn ref_add<C: CurveAffine>(p: Pt<C>, q: Pt<C>) -> Pt<C> {
+    match (p, q) {
+        (None, q) => q,
+        (p, None) => p,
+        (Some((x1, y1)), Some((x2, y2))) => {
+            let lambda = if x1 == x2 {
+                if y1 + y2 == C::Base::ZERO {
+                    return None;
+                }
+                (x1 * x1 + x1 * x1 + x1 * x1) * (y1 + y1).invert().unwrap()
+            } else {
+                (y2 - y1) * (x2 - x1).invert().unwrap()
+            };
+            let x3 = lambda * lambda - x1 - x2;
+            Some((x3, lambda * (x1 - x3) - y1))
+        }
+    }
+}
+
+/// `batch_add(size = N, ..)` with N live schedule points on pairwise distinct, non-identity buckets (what `Schedule::add`
+/// guarantees: it assigns to empty buckets directly, and `msm_best` diverts a bucket that is already pending), two symbolic
+/// bases (so a base may repeat), symbolic signs, NB >= N buckets of which the unscheduled ones may be the identity:
+/// every scheduled bucket ends as (old bucket) + (sign ? base : -base) by the textbook law, the others are unchanged.
+fn batch_add_matches_group_law<C: ToyCurve, const N: usize, const NB: usize>() {
+    let bases = [any_point::<C>(), any_point::<C>()];
+    let mut buckets: [Pt<C>; NB] = [None; NB];
+    let mut j = 0;
+    while j < NB {
+        let inf: bool = any();
+        let pt = any_point::<C>();
+        buckets[j] = if inf { None } else { Some(pt) };
+        j += 1;
+    }
+    let old = buckets;
+    let mut pts = [(0usize, 0usize, false); N];
+    let mut touched = [false; NB];
+    let mut k = 0;
+    while k < N {
+        let (bi, bk): (usize, usize) = (any(), any());
+        let sign: bool = any();
+        assume(bi < 2 && bk < NB);
+        assume(buckets[bk].is_some() && !touched[bk]);
+        touched[bk] = true;
+        pts[k] = (bi, bk, sign);
+        k += 1;
+    }
+    verif_batch_add::<C>(N, &mut buckets, &pts, &bases);
+    let mut k = 0;
+    while k < N {
+        let (bi, bk, sign) = pts[k];
+        let b: Pt<C> = Some(bases[bi]);
+        let expected = ref_add::<C>(old[bk], if sign { b } else { ref_neg::<C>(b) });
+        assert!(buckets[bk] == expected, "batch_add: bucket differs from (old bucket) +/- base by the affine group law");
+        k += 1;
+    }
+    let mut j = 0;
+    while j < NB {
+        assert!(touched[j] || buckets[j] == old[j], "batch_add changed a bucket that was not scheduled");
+        j += 1;
+    }
+    // the interesting cases are reachable (stated on the LAST schedule point: it shares the inversion with all earlier ones)
+    let (bi, bk, sign) = pts[N - 1];
+    let b: Pt<C> = Some(bases[bi]);
+    let o = old[bk];
+    vcover!(o == b && sign, "doubling, sign = true");
+    vcover!(o == ref_neg::<C>(b) && !sign, "doubling of -base, sign = false");
+    vcover!(o == b && !sign, "cancellation P + (-P)");
+    vcover!(o != b && o != ref_neg::<C>(b), "generic addition");
+    vcover!(N < 2 || (pts[0].0 == bi && pts[0].2 != sign), "repeated base with opposite signs in one batch");
+    vcover!(NB == N || old[NB - 1].is_none(), "an identity bucket next to the batch");
+}
+
+#[cfg_attr(kani, kani::proof)]
+#[cfg_attr(kani, kani::unwind(10))]
+pub fn batch_add_p13_n1() {
+    batch_add_matches_group_law::<A13, 1, 2>()
+}
+#[cfg_attr(kani, kani::proof)]
+#[cfg_attr(kani, kani::unwind(10))]
+pub fn batch_add_p13_n2() {
+    batch_add_matches_group_law::<A13, 2, 2>()
+}
+#[cfg_attr(kani, kani::proof)]
+#[cfg_attr(kani, kani::unwind(10))]
+pub fn batch_add_p13_n3() {
+    batch_add_matches_group_law::<A13, 3, 3>()
+}
+#[cfg_attr(kani, kani::proof)]
+#[cfg_attr(kani, kani::unwind(10))]
+pub fn batch_add_p31_n2() {
+    batch_add_matches_group_law::<A31, 2, 2>()
+}
+/// The scheduler around it, driven exactly as `msm_best` drives it: for each (base, bucket, sign) either the bucket is
+/// already in the pending set (`contains`) and `msm_best` adds the point to its separate Jacobian bucket (kept here as a
+/// reference accumulator), or `Schedule::add` is called (direct assignment to an empty bucket, else a pending entry);
+/// `execute` flushes. At the end (affine bucket) + (diverted points) == sum of all +/- bases sent to that bucket, the
+/// pending set is empty, and an empty bucket that received one point holds exactly +/- that point.
+fn schedule_matches_group_law<C: ToyCurve>(nops: usize) {
+    let bases = [any_point::<C>(), any_point::<C>()];
+    let mut s = VerifSchedule::<C>::new(2, &bases); // c = 2: two buckets
+    assert!(s.num_buckets() == 2 && s.ptr() == 0);
+    let mut diverted: [Pt<C>; 2] = [None; 2];
+    let mut total: [Pt<C>; 2] = [None; 2];
+    let mut n_div = 0;
+    let mut n_aff1 = 0; // points that reached bucket 1 through Schedule::add
+    let mut k = 0;
+    while k < nops {
+        let (bi, bk): (usize, usize) = (any(), any());
+        let sign: bool = any();
+        assume(bi < 2 && bk < 2);
+        let b: Pt<C> = Some(bases[bi]);
+        let sb = if sign { b } else { ref_neg::<C>(b) };
+        total[bk] = ref_add::<C>(total[bk], sb);
+        if s.contains(bk) {
+            diverted[bk] = ref_add::<C>(diverted[bk], sb);
+            n_div += 1;
+        } else {
+            if bk == 1 {
+                n_aff1 += 1;
+            }
+            let was_empty = s.bucket(bk).is_none();
+            let before = s.ptr();
+            s.add(bi, bk, sign);
+            if was_empty {
+                assert!(s.bucket(bk) == sb && s.ptr() == before, "an empty bucket takes the point directly");
+            } else {
+                assert!(s.ptr() == before + 1 && s.contains(bk), "a non-empty bucket gets a pending entry");
+            }
+        }
+        k += 1;
+    }
+    s.execute();
+    assert!(s.ptr() == 0);
+    let mut j = 0;
+    while j < 2 {
+        assert!(ref_add::<C>(s.bucket(j), diverted[j]) == total[j], "scheduler: bucket differs from the sum of the points sent to it");
+        j += 1;
+    }
+    vcover!(n_aff1 == 2 && s.bucket(1).is_none(), "assignment then a batched point that cancels it");
+    vcover!(n_aff1 == 2 && s.bucket(1).is_some(), "assignment then a batched addition/doubling");
+    vcover!(n_div > 0, "a point diverted because its bucket is pending");
+}
+
+#[cfg_attr(kani, kani::proof)]
+#[cfg_attr(kani, kani::unwind(66))]
+pub fn schedule_p13_ops2() {
+    schedule_matches_group_law::<A13>(2)
+}
+#[cfg_attr(kani, kani::proof)]
+#[cfg_attr(kani, kani::unwind(66))]
+pub fn schedule_p13_ops3() {
+    schedule_matches_group_law::<A13>(3)
+}
